@@ -55,7 +55,7 @@ impl<'a> TryFrom<&'a [u8]> for SnmpGetResponse<'a> {
                     }
                     // Parse relative oid
                     let (t, r_oid) = SnmpRelativeOid::from_ber(vs.0)?;
-                    let oid = r_oid.normalize(&vars[vars.len() - 1].oid);
+                    let oid = r_oid.try_normalize(&vars[vars.len() - 1].oid)?;
                     // Apply relative oid
                     (t, oid)
                 }
